@@ -18,15 +18,16 @@ import (
 // table and reads it back; with fault positions, wraps the input iterators / the output writer through the public interfaces (C08, C11).
 
 type mergeCase struct {
-	Tables [][][2]any `json:"tables"` // per table ascending [rank, token]; token "NIL" = tombstone
-	Probes []int      `json:"probes"`
-	Ranges [][2]int   `json:"ranges"`
-	Faults []mFault   `json:"faults"`
-	Super  bool       `json:"super"`
-	V0     []int      `json:"v0"`     // tables written in the legacy (version 0) layout: no metadata file, values wrapped in a DataEntry message (only tables without nil / empty values)
-	Nest   string     `json:"nest"`   // "" flat stack | "left": Super(Super(t0..tk-1), tk..) | "pairs": Super(Super(t0,t1), Super(t2,t3), ..) | "right": Super(t0, Super(t1..))
-	Cmp    string     `json:"cmp"`    // "" bytes | "nocase": all tables, the stack and the merger run under the case-insensitive comparator; every other table spells its keys in upper case
-	Loader string     `json:"loader"` // index loader of the input readers: "" default | disk | disk-shared (ONE loader value for all tables) | skiplist | map
+	Tables  [][][2]any `json:"tables"` // per table ascending [rank, token]; token "NIL" = tombstone
+	Probes  []int      `json:"probes"`
+	Ranges  [][2]int   `json:"ranges"`
+	Faults  []mFault   `json:"faults"`
+	Super   bool       `json:"super"`
+	V0      []int      `json:"v0"`      // tables written in the legacy (version 0) layout: no metadata file, values wrapped in a DataEntry message (only tables without nil / empty values)
+	Nest    string     `json:"nest"`    // "" flat stack | "left": Super(Super(t0..tk-1), tk..) | "pairs": Super(Super(t0,t1), Super(t2,t3), ..) | "right": Super(t0, Super(t1..))
+	EmptyAt *int       `json:"emptyat"` // position in the stack at which the library's EmptySStableReader is inserted as one more member (holds nothing: changes nothing)
+	Cmp     string     `json:"cmp"`     // "" bytes | "nocase": all tables, the stack and the merger run under the case-insensitive comparator; every other table spells its keys in upper case
+	Loader  string     `json:"loader"`  // index loader of the input readers: "" default | disk | disk-shared (ONE loader value for all tables) | skiplist | map
 }
 
 type mFault struct {
@@ -339,6 +340,10 @@ func runMerge(args []string) error {
 					}
 					members = append(members, sstables.NewSuperSSTableReader(readers[i:j], cmp))
 				}
+			}
+			if c.EmptyAt != nil && *c.EmptyAt >= 0 && *c.EmptyAt <= len(members) {
+				at := *c.EmptyAt
+				members = append(append(append([]sstables.SSTableReaderI{}, members[:at]...), sstables.EmptySStableReader{}), members[at:]...)
 			}
 			sup := sstables.NewSuperSSTableReader(members, cmp)
 			for _, p := range c.Probes {
